@@ -822,10 +822,11 @@ class KVGarbageCollector(BaseGarbageCollector):
         cursor = conn.cursor()
         # remove all ephemeral events
         start = INDEXES["kinds"].to_key(20000)
-        end = INDEXES["kinds"].to_key(29999)
+        # entries are <kind key>\x00<time>\x00<id>: stop at the first key of kind 30000
+        end = INDEXES["kinds"].to_key(30000)
         if cursor.set_range(start):
             for key in cursor.iternext(values=False):
-                if key > end:
+                if key >= end:
                     break
                 event_id = key[-32:].hex()
                 to_del.append(event_id)
